@@ -204,16 +204,21 @@ use jsonrpsee_core::params::BatchRequestBuilder;
 /// ids start-1..=start+3) and n = 4 (all sequences of length 4 over the in-range ids).
 /// Oracle: a successful call returns exactly n entries; entry i is Ok(v) only if v is the value some reply carried under
 /// id start+i; success/failure counts match the entries.
-async fn batch_case(n: usize, rel: Vec<i64>) -> Option<Value> {
-	let (c, mut peer) = mock::client(ClientBuilder::default().request_timeout(std::time::Duration::from_millis(400)));
-	let w = c.request::<u64, _>("warm", rpc_params![]);
-	let hw = tokio::spawn(async move {
-		let req = peer.next().await.unwrap();
-		peer.send(&json!({"jsonrpc":"2.0","id":id_of(&req),"result":1}).to_string());
-		peer
-	});
-	let _ = w.await;
-	let mut peer = hw.await.unwrap();
+// reply ids that are strings no number spelling: an element carrying one belongs to NO entry of any batch
+const FOREIGN_IDS: [&str; 8] = ["", " ", "0x0", "0.0", "-0", "0 ", " 0", "zero"];
+async fn batch_case(n: usize, rel: Vec<i64>) -> Option<Value> { batch_case2(n, rel, true, jsonrpsee_core::client::IdKind::Number).await }
+async fn batch_case2(n: usize, rel: Vec<i64>, warm: bool, kind: jsonrpsee_core::client::IdKind) -> Option<Value> {
+	let (c, mut peer) = mock::client(ClientBuilder::default().id_format(kind).request_timeout(std::time::Duration::from_millis(400)));
+	if warm {
+		let w = c.request::<u64, _>("warm", rpc_params![]);
+		let hw = tokio::spawn(async move {
+			let req = peer.next().await.unwrap();
+			peer.send(&json!({"jsonrpc":"2.0","id":id_of(&req),"result":1}).to_string());
+			peer
+		});
+		let _ = w.await;
+		peer = hw.await.unwrap();
+	}
 	let mut b = BatchRequestBuilder::new();
 	for k in 0..n {
 		b.insert("m", rpc_params![k]).unwrap();
@@ -223,16 +228,23 @@ async fn batch_case(n: usize, rel: Vec<i64>) -> Option<Value> {
 	let h = tokio::spawn(async move {
 		let req = peer.next().await.unwrap();
 		let arr: Vec<Value> = serde_json::from_str(&req).unwrap();
-		let start = arr[0]["id"].as_u64().unwrap() as i64;
+		let start = arr[0]["id"].as_u64().or_else(|| arr[0]["id"].as_str().and_then(|s| s.parse().ok())).unwrap() as i64;
+		let as_str = arr[0]["id"].is_string();
 		let mut out = Vec::new();
 		for (pos, r) in rel2.iter().enumerate() {
+			if *r >= 100 {
+				// an element whose id is a string that spells no number
+				out.push(json!({"jsonrpc":"2.0","id":FOREIGN_IDS[(*r - 100) as usize],"result":"foreign"}));
+				continue;
+			}
 			if *r == 99 {
 				// a plain notification sharing the array with the batch's answers
 				out.push(json!({"jsonrpc":"2.0","method":"unrelated_notification","params":[pos]}));
 				continue;
 			}
 			let id = start + r;
-			out.push(json!({"jsonrpc":"2.0","id":id,"result":format!("id{}#pos{}", id, pos)}));
+			if as_str { out.push(json!({"jsonrpc":"2.0","id":id.to_string(),"result":format!("id{}#pos{}", id, pos)})); } else {
+			out.push(json!({"jsonrpc":"2.0","id":id,"result":format!("id{}#pos{}", id, pos)})); }
 		}
 		peer.send(&Value::Array(out).to_string());
 		(peer, start)
@@ -242,6 +254,7 @@ async fn batch_case(n: usize, rel: Vec<i64>) -> Option<Value> {
 	{
 		// every entry answered exactly once under its own id (in any order, whatever else shares the array): the call succeeds
 		let mut ids: Vec<i64> = rel.iter().cloned().filter(|r| *r != 99).collect();
+		if ids.iter().any(|r| *r >= 100) { ids.clear(); }
 		ids.sort();
 		if ids == (0..n as i64).collect::<Vec<_>>() && res.is_err() {
 			return Some(json!({"probe":"client_batch_positional","disagrees":true,
@@ -305,7 +318,19 @@ pub fn client_batch_positional() -> Value {
 		for with_notif in [vec![99i64, 0, 1, 2], vec![0, 99, 1, 2], vec![2, 1, 0, 99], vec![1, 99, 99, 0, 2]] {
 			cases.push((3, with_notif));
 		}
-		let total = cases.len();
+		// elements with ids that spell no number, before / between / after the real answers; first batch of a fresh client
+		// (ids from 0) and later batches; both id kinds
+		let mut total = cases.len();
+		for k in 0..FOREIGN_IDS.len() as i64 {
+			for rel in [vec![0, 100 + k, 1], vec![100 + k, 0, 1], vec![0, 1, 100 + k], vec![100 + k, 1]] {
+				for warm in [false, true] {
+					for kind in [jsonrpsee_core::client::IdKind::Number, jsonrpsee_core::client::IdKind::String] {
+						total += 1;
+						if let Some(v) = batch_case2(2, rel.clone(), warm, kind).await { return v; }
+					}
+				}
+			}
+		}
 		for chunk in cases.chunks(64) {
 			let hs: Vec<_> = chunk.iter().cloned().map(|(n, rel)| tokio::spawn(batch_case(n, rel))).collect();
 			for h in hs {
@@ -315,7 +340,7 @@ pub fn client_batch_positional() -> Value {
 			}
 		}
 		json!({"probe":"client_batch_positional","disagrees":false,"reply_sequences_tried":total,
-			"bound":"n=3: all reply sequences of length 2,3 over ids start-1..=start+3; n=4: all sequences of length 4 over in-range ids; 4 complete replies sharing the array with notifications"})
+			"bound":"n=3: all reply sequences of length 2,3 over ids start-1..=start+3; n=4: all sequences of length 4 over in-range ids; 4 complete replies sharing the array with notifications; 8 non-numeric string ids x 4 placements x first/later batch x both id kinds"})
 	})
 }
 
@@ -1520,7 +1545,32 @@ pub fn params_sequence_agrees_with_parse() -> Value {
 			return fail(&format!("params {t} (not an array) read as a sequence: optional_next, next"), format!("optional_next -> {:?}, next -> {:?}", r1.map_err(|e| e.code()), r2.map_err(|e| e.code())), "both fail with -32602".into());
 		}
 	}
-	json!({"probe":"params_sequence_agrees_with_parse","disagrees":false,"inputs_tried":tried,"bound":"arrays of 0..3 elements from 12 element texts x 6 separators x 4 open/close spellings (incl. CRLF); 10 non-array params texts"})
+	// EVERY decoding failure is -32602, whatever category serde_json files it under (surplus elements, numbers out of range,
+	// nesting too deep, wrong type, missing element)
+	{
+		let deep = format!("[{}1{}]", "[".repeat(200), "]".repeat(200));
+		let code = |r: Result<(), jsonrpsee_types::ErrorObjectOwned>| r.err().map(|e| e.code());
+		let checks: Vec<(String, Option<i32>)> = vec![
+			("one::<u64>() on [1, 2]".into(), code(Params::new(Some("[1, 2]")).one::<u64>().map(|_| ()))),
+			("parse::<(u64, u64)>() on [1,2,3]".into(), code(Params::new(Some("[1,2,3]")).parse::<(u64, u64)>().map(|_| ()))),
+			("parse::<[u64; 2]>() on [1]".into(), code(Params::new(Some("[1]")).parse::<[u64; 2]>().map(|_| ()))),
+			("sequence().next::<(u64, u64)>() on [[1,2,3],4]".into(), code(Params::new(Some("[[1,2,3],4]")).sequence().next::<(u64, u64)>().map(|_| ()))),
+			("one::<f64>() on [1e999]".into(), code(Params::new(Some("[1e999]")).one::<f64>().map(|_| ()))),
+			("sequence().next::<Value>() on [1e999]".into(), code(Params::new(Some("[1e999]")).sequence().next::<Value>().map(|_| ()))),
+			("parse::<Value>() on 200 nested arrays".into(), code(Params::new(Some(&deep)).parse::<Value>().map(|_| ()))),
+			("sequence().next::<Value>() on 200 nested arrays".into(), code(Params::new(Some(&deep)).sequence().next::<Value>().map(|_| ()))),
+			("one::<u8>() on [256]".into(), code(Params::new(Some("[256]")).one::<u8>().map(|_| ()))),
+			("one::<String>() on [1]".into(), code(Params::new(Some("[1]")).one::<String>().map(|_| ()))),
+			("parse::<(u64,)>() on {\"a\":1}".into(), code(Params::new(Some("{\"a\":1}")).parse::<(u64,)>().map(|_| ()))),
+		];
+		for (what, got) in checks {
+			tried += 1;
+			if got != Some(-32602) {
+				return fail(&what, format!("{got:?}"), "Some(-32602): invalid params".into());
+			}
+		}
+	}
+	json!({"probe":"params_sequence_agrees_with_parse","disagrees":false,"inputs_tried":tried,"bound":"arrays of 0..3 elements from 12 element texts x 6 separators x 4 open/close spellings (incl. CRLF); 10 non-array params texts; 11 decoding failures of different serde_json categories"})
 }
 
 // ------------------------------------------------------------------------------------------
